@@ -26,12 +26,22 @@ func system(n int, mask uint, classes []string, pauses int, drifts int, celProbe
 	sliced := len(celProbes) > 1 && celProbes[1]
 	successor := len(celProbes) > 2 && celProbes[2]
 	withPrev := len(celProbes) > 3 && celProbes[3]
+	remote := len(celProbes) > 4 && celProbes[4]
 	cfg := osw.B1(n, mask)
 	return &world.System{
 		Name: fmt.Sprintf("B1 phases=%d delegated=%03b pauses=%d drifts=%d", n, mask, pauses, drifts),
 		Init: func() *world.World {
 			w := osw.NewWorld()
 			ps := osw.PhaseSpecs(cfg, 1)
+			if remote {
+				// delegated phases of a class the built-in controller does not serve: some other phase
+				// controller (scripted below) owns the ObjectSetPhases' status
+				for i := range ps {
+					if ps[i].Class != "" {
+						ps[i].Class = "remote"
+					}
+				}
+			}
 			if sliced {
 				// the phases' objects live in ObjectSlices; a lagging cache may hide one from a pass
 				for i := range ps {
@@ -77,6 +87,38 @@ func system(n int, mask uint, classes []string, pauses int, drifts int, celProbe
 						_ = w.Edit(k, func(c map[string]any) { c["spec"].(map[string]any)["x"] = int64(9) })
 						return nil
 					}})
+				}
+			}
+			if remote {
+				for _, k := range w.S.SortedKeys() {
+					o := w.S.Objs[k]
+					if k.Kind != "ObjectSetPhase" || kmodel.Labels(o.Content)[corev1alpha1.ObjectSetPhaseClassLabel] != "remote" {
+						continue
+					}
+					k := k
+					gen := world.Generation(o.Content)
+					cur, _, curOG, has := world.Condition(o.Content, "Available")
+					for _, st := range []struct {
+						status string
+						stale  bool
+					}{{"True", false}, {"False", false}, {"Unknown", false}, {"True", true}} {
+						st := st
+						og := gen
+						if st.stale {
+							og = gen - 1
+						}
+						if has && cur == st.status && curOG == og {
+							continue
+						}
+						name := fmt.Sprintf("remote-phase-controller:%s:Available=%s", k.Name, st.status)
+						if st.stale {
+							name += "@previous-generation"
+						}
+						evs = append(evs, world.Event{Name: name, Apply: func(w *world.World) *world.Pass {
+							_ = w.SetStatus(k, map[string]any{"conditions": []any{map[string]any{"type": "Available", "status": st.status, "reason": "Reported", "message": "reported by the remote phase controller", "observedGeneration": og, "lastTransitionTime": "2026-01-01T00:00:00Z"}}})
+							return nil
+						}})
+					}
 				}
 			}
 			if w.Budget["stale"] > 0 {
@@ -226,6 +268,7 @@ type shape struct {
 	sliced  bool // the phases' objects live in ObjectSlices, a lagging cache may hide one
 	succ    bool // a newer revision r2 (previous: r1) keeps r1's first phase only
 	prev    bool // r1 names an earlier revision r0 as previous (its first pass assigns revision 2)
+	remote  bool // delegated phases have a class served by a scripted remote phase controller
 }
 
 var (
@@ -245,6 +288,7 @@ func shapes(quick bool) []shape {
 			{n: 2, mask: 0, classes: two, succ: true}, {n: 2, mask: 2, classes: two, succ: true},
 			{n: 2, mask: 0, classes: zero}, {n: 2, mask: 1, classes: zero},
 			{n: 2, mask: 0, classes: two, sliced: true, prev: true}, {n: 2, mask: 2, classes: two, prev: true},
+			{n: 2, mask: 1, classes: []string{"ready"}, remote: true}, {n: 3, mask: 0b010, classes: []string{"ready"}, remote: true},
 		}
 	}
 	var out []shape
@@ -269,23 +313,24 @@ func shapes(quick bool) []shape {
 		out = append(out, shape{n: 2, mask: m, classes: two, succ: true}, shape{n: 2, mask: m, classes: []string{"ready", "notready", "stale0"}})
 	}
 	out = append(out, shape{n: 3, mask: 0, classes: two, succ: true}, shape{n: 2, mask: 0, classes: two, drifts: 1, succ: true})
+	out = append(out, shape{n: 2, mask: 1, classes: two, remote: true}, shape{n: 3, mask: 0b010, classes: two, remote: true}, shape{n: 3, mask: 0b011, classes: []string{"ready"}, remote: true, pauses: 1})
 	out = append(out, shape{n: 2, mask: 0, classes: two, sliced: true, prev: true}, shape{n: 3, mask: 0, classes: two, sliced: true, prev: true}, shape{n: 2, mask: 0b10, classes: three, sliced: true, prev: true}, shape{n: 2, mask: 1, classes: two, prev: true})
 	return out
 }
 
 func run(o checks.Opts) *report.Report {
 	rep := report.New("C03", "bfs")
-	rep.Rule = "explicit-state BFS to closure: events = reconcile(ObjectSet), reconcile(each ObjectSetPhase), workload controller setting any existing object's status to a class of the system's alphabet (none/ready/not-ready/stale-observedGeneration/observedGeneration 0), a third party editing a managed object's spec (so that PKO's own revert bumps the generation under a status that was current); one system per phase layout (2-3 phases, local/delegated mask), status alphabet, probe set and encoding (objects inline, or in ObjectSlices one of which a lagging cache may hide from a pass) (condition / fieldsEqual probes, or a CEL rule with an empty failure message), and layouts with a newer revision r2 that takes over r1's first phase while r1 keeps rolling out its later ones; monitor on every request of every ObjectSet pass"
+	rep.Rule = "explicit-state BFS to closure: events = reconcile(ObjectSet), reconcile(each ObjectSetPhase), workload controller setting any existing object's status to a class of the system's alphabet (none/ready/not-ready/stale-observedGeneration/observedGeneration 0), a third party editing a managed object's spec (so that PKO's own revert bumps the generation under a status that was current); one system per phase layout (2-3 phases, local/delegated mask), status alphabet, probe set and encoding (objects inline, or in ObjectSlices one of which a lagging cache may hide from a pass) (condition / fieldsEqual probes, or a CEL rule with an empty failure message), layouts whose delegated phases have a class served by a scripted remote phase controller that reports Available True / False / Unknown for the current or the previous generation, and layouts with a newer revision r2 that takes over r1's first phase while r1 keeps rolling out its later ones; monitor on every request of every ObjectSet pass"
 	ss := shapes(o.Quick())
 	rep.Bounds["systems"] = len(ss)
 	for i, s := range ss {
 		if o.Shards > 1 && i%o.Shards != o.Shard {
 			continue
 		}
-		sys := system(s.n, s.mask, s.classes, s.pauses, s.drifts, s.cel, s.sliced, s.succ, s.prev)
-		sys.Name += fmt.Sprintf(" statuses=%d celProbes=%v sliced=%v successor=%v prev=%v", len(s.classes), s.cel, s.sliced, s.succ, s.prev)
+		sys := system(s.n, s.mask, s.classes, s.pauses, s.drifts, s.cel, s.sliced, s.succ, s.prev, s.remote)
+		sys.Name += fmt.Sprintf(" statuses=%d celProbes=%v sliced=%v successor=%v prev=%v remote=%v", len(s.classes), s.cel, s.sliced, s.succ, s.prev, s.remote)
 		sys.MaxStates = 400000
-		osw.RunBFS(rep, sys, map[string]any{"n": s.n, "mask": s.mask, "classes": s.classes, "pauses": s.pauses, "drifts": s.drifts, "cel": s.cel, "sliced": s.sliced, "succ": s.succ, "prev": s.prev})
+		osw.RunBFS(rep, sys, map[string]any{"n": s.n, "mask": s.mask, "classes": s.classes, "pauses": s.pauses, "drifts": s.drifts, "cel": s.cel, "sliced": s.sliced, "succ": s.succ, "prev": s.prev, "remote": s.remote})
 		rep.Samples = append(rep.Samples, map[string]any{"system": sys.Name, "example_path": []string{"reconcile:os:r1", "workload:Widget/a=ready", "reconcile:os:r1", "workload:Widget/a=notready", "reconcile:os:r1"}})
 	}
 	return rep
@@ -306,7 +351,8 @@ func replay(v report.Violation) string {
 	sliced, _ := v.Params["sliced"].(bool)
 	succ, _ := v.Params["succ"].(bool)
 	prev, _ := v.Params["prev"].(bool)
-	return osw.ReplayBFS(system(int(n), uint(mask), classes, int(pauses), int(drifts), cel, sliced, succ, prev), v)
+	remote, _ := v.Params["remote"].(bool)
+	return osw.ReplayBFS(system(int(n), uint(mask), classes, int(pauses), int(drifts), cel, sliced, succ, prev, remote), v)
 }
 
 // twinScenarios: phase gating of the cluster-scoped kinds in lockstep with the namespaced ones.
@@ -331,9 +377,9 @@ func init() {
 		},
 		Subs: []*checks.Sub{{Name: "bfs", Shards: func(t string) int {
 			if t == "thorough" {
-				return 50
+				return 55
 			}
-			return 18
+			return 20
 		}, Run: run, Replay: replay, Parallel: true},
 			{Name: "long-lived", Shards: func(t string) int {
 				if t == "thorough" {
